@@ -59,7 +59,7 @@ CHECKS = {
          "token grammar, not arbitrary bytes; allocation = TotalAlloc delta, budget 256KiB+512n+n^2/2", "§3 C12"),
  "C14": ("model_checking", "E1/E4 + dohmem",
          "reference resolver model (RFC 9460 procedure) + total replay over an exhaustively enumerated universe of zones x name forms against an in-memory DoH responder that logs every query",
-         "75 HTTPS data shapes (absent, 5 rcodes, 9 service sets, alias chains of length 1..6 with 7 kinds of endings incl. loops) x address data x rcodes x in-answer CNAME x target addresses x poisoned answers x 12 name forms are enumerated (quick: covering rotation for 8 of the forms); the real Resolve runs against the in-memory DoH responder; result, error class, set and number of queries and query padding are compared with the model; hostile names, labels and schemes of every boundary length must yield an error or result and only well-formed queries.",
+         "75 HTTPS data shapes (absent, 5 rcodes, 9 service sets, alias chains of length 1..6, 12 and 30 with 7 kinds of endings incl. loops) x address data x rcodes x in-answer CNAME x target addresses x poisoned answers x 12 name forms are enumerated (quick: covering rotation for 8 of the forms); the real Resolve runs against the in-memory DoH responder; result, error class, set and number of queries and query padding are compared with the model; hostile names, labels and schemes of every boundary length must yield an error or result and only well-formed queries.",
          "model in checks/c14 (chains <=3 must be followed, longer ones may be abandoned; loops end in fallback or error); mixed alias/service RRsets excluded", "§3 C14"),
  "C16": ("model_checking", "E4 hist + E3 gosched",
          "history enumeration against a map-based cache model (virtual clock, in-memory DoH, every history up to the depth bound) + controlled-scheduler exploration of concurrent lookups + deterministic write-footprint oracle",
